@@ -58,3 +58,19 @@ def run(rec):
     text, conds = gen(rec.tier, rec.seed)
     mod = pysym.write_module("hgen_C04", text)
     pysym.run_auto(rec, mod, conds, default_timeout=120)
+    engine_scale_freedom(rec)
+
+
+def engine_scale_freedom(rec):
+    """The reduction above needs the engine to be a function of the bare numbers with NO absolute scale of its own (no threshold,
+    tolerance or constant that singles out a magnitude): one Euler step equals the (homogeneous, rational) rate law for ALL real
+    values of state, k, D, geometry and dt - in particular for the same model written in units where D or k are 1e-20 or 1e+20."""
+    from .. import catalogue
+    from ..cxx.engine import program, ast_info
+    from ..enginelegs import check_euler_step
+    program()
+    rec.extra["ast"] = ast_info()
+    rec.assume("engine leg: the Euler step of the native engine is executed symbolically (cxx-sym) and proved equal to the rate law for all real values of state / k / D / dt, on one grid and one graph structure; the stochastic engines' propensities are proved equal to the law's terms for all values in C07")
+    rec.encoded("Euler3D::Iterate / EulerGraph::Iterate, Build_mesh_kd / Build_node_kd (no magnitude-dependent branch)")
+    for netname, sd in (("ABC_bi", ("grid", 2, 1, 1, 1)), ("AB_rev", ("graph", "pair"))):
+        check_euler_step(rec, netname, sd, label="engine step has no absolute scale: equals the rate law for every magnitude of state, k, D, dt")
